@@ -313,6 +313,8 @@ def term_case(chk, rng, pool, items1, items2=None, exhaustive=False):
                                    "reciprocal")]},
         {"k": "h.pow-mul", "e": ["eqhash", OP("**", V("t1"), ["i", 2]),
                                  OP("*", V("t1"), V("t1"))]},
+        {"k": "h.mul-ctor", "e": ["eqhash", OP("*", V("t1"), V("t2")),
+                                  T(items1 + items2)]},
         # the quotient of two terms against the empty term
         {"k": "q.empty", "e": ["eqhash", OP("/", V("t1"), V("t2")),
                                ["term", []]]},
@@ -413,7 +415,7 @@ def term_case(chk, rng, pool, items1, items2=None, exhaustive=False):
         expect_eq("eqn", True, "t1 == t1.normalized()")
         expect_eq("eqp", True, "t1 == Term(same items, other order)")
         for hk in ("h.rec-pow", "h.rec-rdiv", "h.mul-comm", "h.scalar-comm",
-                   "h.div-rec", "h.pow-mul"):
+                   "h.div-rec", "h.pow-mul", "h.mul-ctor"):
             expect_eq(hk, True, "equal results (%s)" % hk[2:])
             chk.count("equal operation results compared")
         expect_eq("q.empty", d1 == d2, "t1 / t2 == Term(())")
